@@ -165,6 +165,11 @@ def single_case(draw):
         groups = [[i] for i in range(n)] if 'nodesc' in form else U.groups_of(obs)
         meas = U.fix_flat_patterns(meas, groups)
     oid = [10 + 3 * i for i in draw(gen.permutation(n))]
+    if draw(st.integers(0, 7)) == 0 and len(U.groups_of(obs)) >= 3:
+        # a dropped sample: one measurement of one observation is NaN; by the formula exactly the
+        # pairs with that observation's condition are NaN
+        meas = [list(r) for r in meas]
+        meas[draw(st.integers(0, n - 1))][draw(st.integers(0, p - 1))] = float('nan')
     return dict(meas=meas, kind=kind, dtype=draw(st.sampled_from(['float', 'int'])),
                 obs=obs, label_kind=des['kind'], container=draw(gen.container),
                 extras=draw(_extras(obs, des['labels'])), oid=oid,
@@ -238,7 +243,7 @@ def check_single(case):
         before = np.array(ds.measurements, copy=True)
         r = lib(calc_rdm, arg, on_error='violation',
                 sig='raises:calc_rdm:%s:%s' % (form, method), **kw)
-        require(np.array_equal(before, ds.measurements), what + ': dataset measurements modified',
+        require(np.array_equal(before, ds.measurements, equal_nan=True), what + ': dataset measurements modified',
                 'input-mutated')
         require(r.n_rdm == 1, '%s: %d RDMs for one dataset' % (what, r.n_rdm), 'n_rdm:' + form)
         libm, pos = lookup_matrix(r, 0, lab_desc, labels, what, form)
@@ -266,6 +271,7 @@ def classify_single(case):
               'remove_mean:%s' % cfg['remove_mean'], 'desc:' + case['container'],
               'dtype:' + ('int' if case['dtype'] == 'int' and U.all_integral(case['meas']) else 'float'),
               'values:' + case['kind'], 'n_cond:%d' % len(groups),
+              'missing-sample' if any(v != v for r in case['meas'] for v in r) else 'complete',
               'order:' + ('unsorted' if _label_order_nontrivial(case['obs']) else 'sorted')]
     if cfg['method'] == 'mahalanobis':
         labels.append('noise:' + cfg.get('noise_form', 'none'))
